@@ -11,7 +11,7 @@ Model and check describe the REPAIRED code (ff6cf28 F11c, 0f1faec F11b, f5eca82 
 classes): quoted-trailing-backslash (what is left of F11b; also when recording), positional-eq-exported (what is
 left of F11a, fixed by 92cc1cc: a positional value that looks like NAME=value is exported as NAME by a retry/restart),
 F11d output-captures-stderr, output-exceeds-exec-string
-(streams: parse, doc, env, loop, subst, cli, restart, retrycmd, out) (a captured value longer than execve takes in one environment string: every later step fails
+(streams: parse, doc, env, loop, subst, cli, restart, retrycmd, subwf, out) (a captured value longer than execve takes in one environment string: every later step fails
 to start).
 """
 import base64
@@ -221,6 +221,8 @@ def monitor(c):
         return monitor_restart(c)
     if st == "retrycmd":
         return monitor_retrycmd(c)
+    if st == "subwf":
+        return monitor_subwf(c)
     if st == "cli":
         items = c["items"]
         classes = [item_class(it) for it in items]
@@ -348,6 +350,32 @@ def monitor_restart(c):
     r = seen_mismatch(c, items, "re-", whos=("env",)) or exported_mismatch(c, items)
     if r:
         return ("the restarted run does not see the parameters of the run it repeats: " + r, cls1)
+    return None
+
+
+def monitor_subwf(c):
+    """A DAG started with parameters runs a `run:` sub-workflow step whose child declares defaults at the same positions
+    and names: the values given at start reach every later consumer (next step, its command line, the exit handler)
+    unchanged, and nothing else appears under $1..$n / the names."""
+    items = c["items"]
+    bad = sorted([x for x in (item_class(it) for it in items) if x], key=lambda x: 0 if x == "quoted-trailing-backslash" else 1)
+    cls = {"class": bad[0] if bad else "v0", "stream": "subwf"}
+    if c.get("hang"):
+        return ("the run with a sub-workflow step did not come back", cls)
+    r = seen_mismatch(c, items, "", whos=("first",), with_args=False)
+    if r:
+        return ("before the sub-workflow step: " + r, cls)
+    if c.get("status") != "child-ran":
+        return ("the sub-workflow did not run", cls)
+    r = seen_mismatch(c, items, "", whos=("env", "handler"))
+    if r:
+        return ("after the sub-workflow step (child defaults at the same positions / names): " + r, cls)
+    pr = c["probes"]
+    for who in ("env", "handler"):
+        for k, v in pr["first"]["env"].items():
+            if pr[who]["env"].get(k) != v:
+                return ("after the sub-workflow step %s sees $%s = %r, before the call it was %r"
+                        % (who, k, unb64(pr[who]["env"].get(k)), unb64(v)), cls)
     return None
 
 
@@ -512,7 +540,7 @@ def candidates(c):
         s = c["s"]
         for i in range(len(s)):
             out.append(dict(base, s=s[:i] + s[i + 1:]))
-    elif c["stream"] in ("doc", "env", "loop", "subst", "cli", "restart", "retrycmd"):
+    elif c["stream"] in ("doc", "env", "loop", "subst", "cli", "restart", "retrycmd", "subwf"):
         its = c["items"]
         for i in range(len(its)):
             if len(its) > 1:
@@ -555,7 +583,7 @@ def slim(c):
 def nontrivial(c):
     if c["stream"] == "parse":
         return any(ch in c["s"] for ch in '"=` \\')
-    if c["stream"] in ("doc", "env", "loop", "subst", "cli", "restart", "retrycmd"):
+    if c["stream"] in ("doc", "env", "loop", "subst", "cli", "restart", "retrycmd", "subwf"):
         return any(it["kind"] != "w" or "=" in it["value"] for it in c["items"])
     return len(out_bytes(c)) > 0
 
@@ -563,7 +591,7 @@ def nontrivial(c):
 def key(c):
     if c["stream"] == "parse":
         return ("p", c["s"])
-    if c["stream"] in ("doc", "env", "loop", "subst", "cli", "restart", "retrycmd"):
+    if c["stream"] in ("doc", "env", "loop", "subst", "cli", "restart", "retrycmd", "subwf"):
         return (c["stream"], json.dumps(c["items"], sort_keys=True))
     return ("o", c.get("gen"), c.get("size"), c.get("out_b64"), c.get("err_b64"), c.get("out0_b64"), c.get("collide"), c.get("prod_files"))
 
@@ -621,7 +649,7 @@ def run(ctx, replay_cases=None):
             k = next((x for x in cl if x), "V0")
             classes[k] = classes.get(k, 0) + 1
     ctx.cov["evaluations"] = len(cases)
-    ctx.cov["traces_validated_against_impl"] = sum(1 for c in cases if c["stream"] in ("env", "loop", "out", "subst", "cli", "restart", "retrycmd"))
+    ctx.cov["traces_validated_against_impl"] = sum(1 for c in cases if c["stream"] in ("env", "loop", "out", "subst", "cli", "restart", "retrycmd", "subwf"))
     ctx.cov["distinct_nontrivial"] = len(seen)
     ctx.cov["rule"] = ("distinct = distinct input (parameter string / item list / output bytes); non-trivial = a parameter string "
                        "containing a quote, =, back-tick, backslash or space; an item list with a quoted or named item; a non-empty output")
